@@ -3,7 +3,7 @@
    correspondence check props/c07sm.py. *)
 From Coq Require Import List NArith ZArith Bool.
 From LTV Require Import Common.Bytes.
-From LTV.C07 Require Import Model ProofsDec ProofsSafe ProofsFaith StaticMap ProofsSM ProofsSMTotal ProofsSMFaith ProofsSMRT.
+From LTV.C07 Require Import Model ProofsDec ProofsSafe ProofsRT ProofsFaith StaticMap ProofsSM ProofsSMTotal ProofsSMFaith ProofsSMRT ProofsSMRound ProofsSMWrite.
 Import ListNotations.
 Local Open Scope N_scope.
 
@@ -167,15 +167,104 @@ Example static_map_key_regression :
             nth 2 e None = Some (SObj (VInt 1) false).
 Proof. repeat split; try (vm_compute; reflexivity). eexists. split; vm_compute; reflexivity. Qed.
 
-(* Round trip. PARTIAL (see the header of ProofsSMRT.v for what is missing): explicit instances over
-   each real table and a synthetic nested table (computed), and the empty map for EVERY table. *)
-Theorem static_map_roundtrip_partial :
+(* ---------------------------------------------------------------- round trip (writer, then reader)
+   generated obligation: the four real key tables satisfy the round-trip side condition table_rt_ok
+   (StaticMap.v: index = position; from every dictionary level of every key, every component lookup
+   succeeds from every cursor position — the leaf at the row itself, no earlier match, no blocking
+   sibling; same leaf kind from every level) *)
+Theorem real_tables_rt_ok : forallb table_rt_ok [ext_handshake; ext_pex; ext_metadata; dht] = true.
+Proof. exact ProofsSM.real_tables_rt_ok. Qed.
+Print Assumptions real_tables_rt_ok.
+
+(* the condition is not vacuous in the other direction either: it refuses a table whose sibling blocks a
+   lookup (find_key_match's `break`: "ab" before "a"), a duplicate key, and an upper-case sibling
+   sorting before "::" *)
+Example table_rt_ok_refuses :
+  table_rt_ok [(0, [97; 98]); (1, [97])] = false /\ table_rt_ok [(0, [97]); (1, [97])] = false /\
+  table_rt_ok [(0, [97; 66]); (1, [97; 58; 58; 98])] = false /\ table_rt_ok [(0, [97]); (1, [97; 98])] = true.
+Proof. repeat split; vm_compute; reflexivity. Qed.
+
+(* For EVERY table with table_rt_ok and EVERY entry assignment e with entries_rt_ok (one entry per
+   row; a filled entry sits on a row without "[]" and its value round-trips through the reader the
+   row selects: value_rt, established below for every kind of row) followed by ANY bytes r: the writer
+   succeeds (never Fault / internal_error, stack within 8 entries), and reading its output back — the
+   whole shorter than 2^32 bytes — returns exactly e and stops exactly at r. Nested "::" dictionaries
+   of any depth are covered. *)
+Theorem static_map_roundtrip : forall tbl e r,
+  table_rt_ok tbl = true -> entries_rt_ok tbl e ->
+  exists out, sm_write tbl e = WOk [] out /\
+    (N.of_nat (length (out ++ r)) < two32 -> sm_read tbl (out ++ r) = Ok e r).
+Proof. exact ProofsSMRound.static_map_roundtrip. Qed.
+Print Assumptions static_map_roundtrip.
+
+(* per-kind value lemmas: what value_rt holds for *)
+Theorem value_rt_plain : forall v, wf v -> height v < depth_limit_c -> value_rt None (SObj v false).
+Proof. exact ProofsSMRound.value_rt_plain. Qed.
+Print Assumptions value_rt_plain.
+Theorem value_rt_string : forall b, N.of_nat (length b) < two32 -> value_rt (Some RawS) (SRaw RawS b).
+Proof. exact ProofsSMRound.value_rt_string. Qed.
+Print Assumptions value_rt_string.
+Theorem value_rt_any : forall v, wf v -> height v < skip_stack_limit -> value_rt (Some RawAny) (SRaw RawAny (enc v)).
+Proof. exact ProofsSMRound.value_rt_any. Qed.
+Print Assumptions value_rt_any.
+Theorem value_rt_list : forall vs, wf (VList vs) -> height (VList vs) < skip_stack_limit ->
+  value_rt (Some RawL) (SRaw RawL (flat_map enc vs)).
+Proof. exact ProofsSMRound.value_rt_list. Qed.
+Print Assumptions value_rt_list.
+Theorem value_rt_map : forall m, wf (VMap m) -> height (VMap m) < skip_stack_limit ->
+  value_rt (Some RawM) (SRaw RawM (flat_map (fun kv => enc_str (fst kv) ++ enc (snd kv)) m)).
+Proof. exact ProofsSMRound.value_rt_map. Qed.
+Print Assumptions value_rt_map.
+
+(* hypotheses satisfiable: a DHT get_peers reply (nested r:: rows, "*S", "*L" and "*" kinds) *)
+Example static_map_roundtrip_nonvacuous :
+  let e := [None; None; None; None; None; None; None; None;
+            Some (SRaw RawS [105; 100]); None; Some (SRaw RawS [116]);
+            Some (SRaw RawL (flat_map enc [VStr [1; 2; 3; 4; 5; 6]])); Some (SRaw RawS [116; 116]);
+            Some (SRaw RawAny (enc (VStr [76; 84]))); Some (SRaw RawS [114])] in
+  table_rt_ok dht = true /\ entries_rt_ok dht e.
+Proof.
+  split; [vm_compute; reflexivity|]. split; [reflexivity|].
+  intros j sv H.
+  do 15 (destruct j as [|j]; [cbn in H; try discriminate; inversion H; subst sv; eexists _, _;
+    (split; [reflexivity|]); (split; [vm_compute; reflexivity|]);
+    first [apply ProofsSMRound.value_rt_string; vm_compute; reflexivity
+          |apply (ProofsSMRound.value_rt_list [VStr [1; 2; 3; 4; 5; 6]]); [cbn; repeat split; vm_compute; reflexivity|vm_compute; reflexivity]
+          |apply (ProofsSMRound.value_rt_any (VStr [76; 84])); [vm_compute; reflexivity|vm_compute; reflexivity]]|]).
+  destruct j; discriminate.
+Qed.
+
+(* Writer totality: for EVERY table with table_ww_ok (from every level start of every key the walk
+   reaches a leaf through well-formed "::" / "[]") and EVERY entry assignment of the table's size — any
+   values, list rows included — static_map_write_bencode_c_values returns output: no access outside
+   the value array or key[16], no prev_key dereference while NULL, stack index < 8 (derived from the
+   key length), no internal_error "static_map_type key is invalid". *)
+Theorem real_tables_ww_ok : forallb table_ww_ok [ext_handshake; ext_pex; ext_metadata; dht] = true.
+Proof. exact ProofsSM.real_tables_ww_ok. Qed.
+Print Assumptions real_tables_ww_ok.
+
+Theorem static_map_write_total : forall tbl e, table_ww_ok tbl = true -> length e = length tbl ->
+  exists out, sm_write tbl e = WOk [] out.
+Proof. exact ProofsSMWrite.static_map_write_total. Qed.
+Print Assumptions static_map_write_total.
+
+Example static_map_write_total_nonvacuous :
+  table_ww_ok dht = true /\ table_ww_ok [(0, [97; 58; 98])] = false /\
+  sm_write [(0, [97; 58; 98])] [Some (SObj (VInt 1) false)] = WInternal.
+Proof. repeat split; vm_compute; reflexivity. Qed.
+
+(* List rows ("x[]…", the two error rows of the DHT table). PARTIAL: the for-all round trip above
+   requires their entries to be empty; with filled list rows only explicit instances are proved
+   (computed), among them inst_dht_reply / inst_synth with list groups filled from their first row.
+   Missing: the lock-step through sm_list (element loop) and the writer's list level. Covered
+   dynamically by the W cases of the correspondence run (oracle class static-map-roundtrip). *)
+Theorem static_map_roundtrip_lists_partial :
   rt_holds ext_handshake inst_handshake = true /\ rt_holds ext_handshake inst_handshake2 = true /\
   rt_holds ext_pex inst_pex = true /\ rt_holds ext_metadata inst_metadata = true /\
   rt_holds dht inst_dht_query = true /\ rt_holds dht inst_dht_reply = true /\
   table_ok synth_tbl = true /\ rt_holds synth_tbl inst_synth = true.
 Proof. exact ProofsSMRT.static_map_roundtrip_instances. Qed.
-Print Assumptions static_map_roundtrip_partial.
+Print Assumptions static_map_roundtrip_lists_partial.
 
 Theorem static_map_roundtrip_empty : forall tbl r, table_ok tbl = true ->
   sm_write tbl (empty_entries tbl) = WOk [] [ch_d; ch_e] /\
